@@ -82,6 +82,13 @@ func runSolver(ctx context.Context, sp solverSpec, file string, timeout time.Dur
 	el := time.Since(t0).Seconds()
 	text := out.String()
 	first := strings.TrimSpace(strings.SplitN(text, "\n", 2)[0])
+	for _, l := range strings.Split(text, "\n") {
+		l = strings.TrimSpace(l)
+		if l == "sat" || l == "unsat" || l == "unknown" || l == "timeout" {
+			first = l
+			break
+		}
+	}
 	v := "unknown"
 	switch first {
 	case "unsat":
